@@ -189,8 +189,9 @@ func (g *Gen) genFunc(fs *FuncSpec) {
 		for _, c := range ens {
 			// interface clauses that are definitional for this implementation: hypotheses at its returns
 			if c.Label != "" && assumedLbl[c.Label] && fs.Impl != "" {
-				henv := &Env{g: g, st: r.st, old: st0, vars: rv, pc: r.pc, hyp: true}
-				g.s.assumeUnder(r.pc, henv.tr(c.E, true).S)
+				// (not assumed while the implementation's own clauses are proved: with the
+				// definitional clause in scope a clause such as `twin: rowsOf(e, chunk, ret)`
+				// would be proved by the assumption instead of by the code)
 				g.trustedUse["definitional: "+fs.Impl+" clause `"+c.Label+"` names the outcome of "+fs.Key] = true
 			}
 		}
